@@ -343,7 +343,12 @@ def register_pandas():
     @normalize_token.register(pd.DataFrame)
     def normalize_dataframe(df):
         mgr = df._mgr
-        data = list(mgr.arrays) + [df.columns, df.index]
+        # the block arrays alone do not say which columns their rows belong to
+        data = (
+            list(mgr.arrays)
+            + [blk.mgr_locs.as_array for blk in getattr(mgr, "blocks", ())]
+            + [df.columns, df.index]
+        )
         return list(map(normalize_token, data))
 
     @normalize_token.register(pd.arrays.ArrowExtensionArray)
